@@ -36,6 +36,17 @@ CONTENT = {
     "DA": b"Hello\nWorld!\nthird line\n",
     "DB": b"Hello\nworld!\nthird line\nfourth\n",
 }
+# large contents (several pipe buffers, poorly compressible): cmp / grep -q stop reading early and the decompressor is ended by SIGPIPE
+def _big(seed, n=3 << 20):
+    import hashlib
+    out = bytearray()
+    h = hashlib.sha256(seed).digest()
+    while len(out) < n:
+        h = hashlib.sha256(h).digest(); out += h.hex().encode() + b"\n"
+    return bytes(out[:n])
+CONTENT["BIGA"] = _big(b"A")
+CONTENT["BIGB"] = b"X" + CONTENT["BIGA"][1:]                    # differs in the first byte
+CONTENT["BIGC"] = CONTENT["BIGA"][:-2] + b"Z\n"                # differs at the very end
 
 
 def seqs(n, with_empty=False):
@@ -763,6 +774,16 @@ def grid_diff_pairs(env, tier):
             for tool in ("xzdiff", "xzcmp"):
                 for o in optsets[tool]:
                     yield mkcase("pairs", tool, o + [fa[0], fb[0]], [fa, fb], expect="status2" if bad else "mirror")
+    # large files that differ in the first byte / in the last line / not at all
+    for fa_, fb_ in ((("xz", "BIGA"), ("xz", "BIGB")), (("xz", "BIGA"), ("plain", "BIGB")), (("gz", "BIGB"), ("xz", "BIGA")), (("xz", "BIGA"), ("xz", "BIGC")),
+                     (("xz", "BIGA"), ("lzma", "BIGA"))):
+        if fa_[0] not in env.formats() + ["plain"] or fb_[0] not in env.formats() + ["plain"]:
+            continue
+        fa = ("x" + (SUFFIX[fa_[0]] or ".txt"),) + fa_ + ("ok",)
+        fb = ("y" + (SUFFIX[fb_[0]] or ".txt"),) + fb_ + ("ok",)
+        yield mkcase("pairs-large", "xzcmp", [fa[0], fb[0]], [fa, fb])
+        yield mkcase("pairs-large", "xzcmp", ["-s", fa[0], fb[0]], [fa, fb])
+        yield mkcase("pairs-large", "xzdiff", ["-q", fa[0], fb[0]], [fa, fb])
     # standard input as one operand ("-"), data compressed or not
     for a in ops:
         if a[2] == "missing":
@@ -830,7 +851,16 @@ def grid_diff_options(env, tier):
         yield mkcase("diffopt", "xzdiff", ["--ignore-matching-lines=" + t, "x.xz", "y.xz"], files)
 
 
-GRIDS = [grid_grep_optpairs, grid_diff_pairs, grid_grep_formats, grid_grep_badops, grid_diff_options, grid_grep_longopts,
+def grid_grep_large(env, tier):
+    """Options that let grep stop before the end of a multi-megabyte file (the decompressor then gets SIGPIPE), and ones that do not."""
+    big = ("big.xz", "xz", "BIGA", "ok"); f1 = ("f1.xz", "xz", "F1", "ok")
+    for o in ([["-q"], ["-l"], ["-m1"], ["-c"], ["-L"], ["-m1", "-n"], ["-q", "-s"]]):
+        for pat in ("a", "^0123456789zz$"):
+            for files in ([big], [big, f1], [f1, big]):
+                yield mkcase("large", "xzgrep", o + [pat] + [f[0] for f in files], files)
+
+
+GRIDS = [grid_grep_large, grid_grep_optpairs, grid_diff_pairs, grid_grep_formats, grid_grep_badops, grid_diff_options, grid_grep_longopts,
          grid_grep_options, grid_grep_bundles, grid_grep_patterns, grid_grep_patfiles, grid_diff_single,
          grid_grep_names, grid_diff_names]
 
